@@ -32,6 +32,7 @@ type FuncContract struct {
 	Props    []string
 	Requires []*Clause
 	Ensures  []*Clause
+	Assumes  []*Clause // definitional assumptions (listed in the evidence), asserted at function entry
 	Modifies []string // raw modifies items
 	Loops    map[int]*LoopSpec
 	MayPanic bool
@@ -225,6 +226,15 @@ func ParseSpecFile(path, pkgPath string, ps *PkgSpec) error {
 			} else {
 				return fail(l.n, "props outside block")
 			}
+		case "assume":
+			if curF == nil {
+				return fail(l.n, "assume outside func block")
+			}
+			c, err := mkClause(l.n, rest)
+			if err != nil {
+				return err
+			}
+			curF.Assumes = append(curF.Assumes, c)
 		case "requires", "ensures":
 			if curF == nil {
 				return fail(l.n, "%s outside func block", kw)
